@@ -32,6 +32,8 @@ type c10Workload struct {
 	src     string
 	endless bool // never completes on its own
 	vmOnly  bool
+	fixedN    int  // if > 0 the only value of N used (tree workloads grow exponentially with N)
+	genProg   bool // a random program from gen.go; Params["n"] is the generator seed
 	generated bool // one of the generated loop x body x wrapper workloads (fewer cancellation points each)
 	// check validates the lines printed up to the stop: nothing may have run
 	// after it, in particular no catch block may have caught the termination.
@@ -129,13 +131,13 @@ fn main() { try { println(walk(50)); } catch e { println("caught"); } }`},
 fn fib(n: int) -> int { if n < 2 { n } else { fib(n - 1) + fib(n - 2) } }
 fn w(id: int) { println(fib(70)); }
 fn main() { for i in 0..N { spawn w(i); } }`},
-	{name: "spawn-tree", endless: true, vmOnly: true, generated: true, check: noOutput, src: `
+	{name: "spawn-tree", fixedN: 3, endless: true, vmOnly: true, generated: true, check: noOutput, src: `
 fn node(d: int) {
     if d > 0 { spawn node(d - 1); spawn node(d - 1); }
     loop { time.sleep(0.01); }
 }
 fn main() { node(N + 4); }`},
-	{name: "spawn-tree-waves", endless: false, vmOnly: true, generated: true, check: noOutput, src: `
+	{name: "spawn-tree-waves", fixedN: 3, endless: false, vmOnly: true, generated: true, check: noOutput, src: `
 fn node(depth: int) {
     if depth < N + 4 {
         time.sleep(0.02);
@@ -146,13 +148,14 @@ fn node(depth: int) {
     }
 }
 fn main() { node(0); }`},
-	{name: "spawn-tree-busy", endless: true, vmOnly: true, generated: true, check: noOutput, src: `
+	{name: "spawn-tree-busy", fixedN: 3, endless: true, vmOnly: true, generated: true, check: noOutput, src: `
 let g = 0;
 fn node(d: int) {
     if d > 0 { spawn node(d - 1); spawn node(d - 1); spawn node(d - 1); }
     loop { g = g + 1; }
 }
 fn main() { node(N + 2); }`},
+	{name: "gen-prog", endless: true, genProg: true, generated: true, check: noOutput, src: "GEN"},
 	{name: "spawn-late", endless: true, vmOnly: true, check: perWorker, src: `
 fn w(id: int) { let i = 0; loop { println("w", id, i); i = i + 1; time.sleep(0.01); } }
 fn main() { for i in 0..N { time.sleep(0.013); spawn w(i); } loop { let z = 0; } }`},
@@ -192,8 +195,13 @@ func init() {
 }
 
 func c10Source(w c10Workload, n int) string {
+	if w.genProg {
+		return genProgram(uint64(n), "endless", 0)
+	}
 	return strings.ReplaceAll(w.src, "N", strconv.Itoa(n))
 }
+
+var errGenRejected = fmt.Errorf("generated program rejected by the analyzer")
 
 type runResult struct {
 	out      outcome
@@ -209,6 +217,9 @@ func c10Exec(t *testing.T, spec RunSpec, cancelAt int64, deadline time.Duration,
 	backend := spec.P("backend", 0)
 	prog, err := MustCompile(Single(c10Source(w, spec.P("n", 2))))
 	if err != nil {
+		if w.genProg {
+			return nil, nil, errGenRejected
+		}
 		return nil, nil, fmt.Errorf("workload %s does not compile: %v", w.name, err)
 	}
 	rr := &runResult{}
@@ -401,6 +412,10 @@ func runC10(t *testing.T, spec RunSpec) *Verdict {
 	cancelAt := int64(spec.F("cancel_at", 0))
 	deadline := time.Duration(spec.F("deadline_us", 0)) * time.Microsecond
 	res, rr, err := c10Exec(t, spec, cancelAt, deadline, true)
+	if err == errGenRejected {
+		v.Probes = map[string]int{"generated-program-rejected": 1}
+		return v
+	}
 	if err != nil {
 		v.fail(P, "infra", "", "", err.Error())
 		return v
@@ -503,6 +518,19 @@ func planC10(t *testing.T, tier string, seed uint64) ([]RunSpec, error) {
 			nlist := []int{1}
 			if w.vmOnly {
 				nlist = ns
+			}
+			if w.fixedN > 0 {
+				nlist = []int{w.fixedN}
+			}
+			if w.genProg {
+				ng := 40
+				if !quick(tier) {
+					ng = 3000
+				}
+				nlist = nil
+				for gi := 0; gi < ng; gi++ {
+					nlist = append(nlist, 1+int(simrt.Mix(seed, uint64(gi), 0xc10)%1000000))
+				}
 			}
 			for _, n := range nlist {
 				base := RunSpec{Property: "C10", Workload: "c10/" + w.name + "/" + []string{"vm", "interp"}[backend], Params: map[string]int{"w": wi, "backend": backend, "n": n}}
